@@ -11,7 +11,7 @@ var Properties = map[string]PropertyDef{
 	"C07": {Cases: C07Cases, Config: func(tier string) Config {
 		c := Config{
 			Functions: []string{"gennaro rounds", "lindell22 signing rounds", "redistribute/hjky rounds", "algebrautils.RandomNonIdentity / Field.Random call sites of every round (observed through the reader monitor)", "kw.Scheme.DealAndRevealDealerFunc (columnFactory.Random)"},
-			Bounds:    map[string]any{"protocols": "Gennaro DKG, Lindell22 signing, redistribute (refresh)", "clauses": "reader discipline on every symbolic path; dependence of PK / joint nonce point / shares on each party's stream (solver witness); nonce-commitment injectivity and independence from message and other parties (validity)"},
+			Bounds:    map[string]any{"failing source": "Gennaro, Canetti, Lindell22 signing, refresh (3 parties, resp. a 2-party quorum): for every consumption index k < 24 of one party's source (thorough: of every party's), the k-th read fails once: the party reports an error from its constructor or from the round in which the read happens, and produces no result", "protocols": "Gennaro DKG, Lindell22 signing, redistribute (refresh)", "clauses": "reader discipline on every symbolic path; dependence of PK / joint nonce point / shares on each party's stream (solver witness); nonce-commitment injectivity and independence from message and other parties (validity)"},
 			Assumes:   []string{"a party's stream = the io.Reader passed to its constructor; streams of distinct parties are independent symbolic variables", "byte-level randomness (commitment witnesses, session contributions) is visible only as 'read from the right reader'"},
 			Outside:   []string{"session setup, OT, RVOLE, DKLs23, Lindell17, BLS", "randomness obtained without going through the supplied io.Reader and without sampling a field/group element (invisible to the monitor)", "sequences of sessions on the same key material"},
 		}
